@@ -126,6 +126,8 @@ class RuleMd013(RulePlugin):
     ) -> Tuple[bool, int]:
         # print("line(" + str(self.__line_index) + ")->len=(" + str(line_length) + "):" + str(line))
         # print("-->" + str(self.__leaf_tokens[self.__leaf_token_index]))
+        if not self.__leaf_tokens:
+            return line_length > compare_length, compare_length
         if (
             self.__leaf_tokens[self.__leaf_token_index].is_fenced_code_block
             or self.__leaf_tokens[self.__leaf_token_index].is_indented_code_block
